@@ -1,22 +1,27 @@
 """C19 - EYAML key rotation re-keys every secret once and touches nothing else.
 
-Design level: spec/YRotate.tla (step machine RStep over secret cells) is model-checked by TLC over every
-document of a small shape space (MC_YRotate): with the Store the property demands every clause is an invariant;
-with the Store of the pinned code (MC_YRotate_pinned) TLC is expected to find the foreign-sequence alias
-counterexample - a *prediction*, turned into a verdict only by the replay below.
+Design level: spec/YRotate.tla (step machine RStep over the secret cells of the files of one invocation) is
+model-checked by TLC over small shape spaces (MC_YRotate): documents (q/t), marker spellings and undecryptable
+tokens (marker), plaintext endings (fid), several files per invocation reusing an anchor name (files).  With the
+design the property demands every clause is an invariant; three named deviations are model-checked as well and
+TLC must find their counterexamples: the Store of the originally pinned code (pinned), the command output read
+with .rstrip() (pinned_rstrip), seen_anchors not reset per file (noreset).  These are *predictions*; a verdict
+comes only from the replay below.
 
-S->C: every document TLC emitted (a seeded sample of the largest size class in the quick tier) is written as a
-YAML file whose secrets are encrypted by the stand-in eyaml under the OLD keys, and the real
-`yamlpath.commands.eyaml_rotate_keys.main()` runs on it in-process with the stand-in on PATH.
-C->S: the same for seeded random documents (nesting, flow containers, nine scalar styles, anchored/aliased
-secrets and plaintext, duplicate plaintexts, third-party and corrupt tokens).  For every run the merged log of
-the stand-in (Decrypt/Encrypt) and of recording wrappers in the command module's namespace
-(Find/Node/Store/Backup/Write/Exit) is validated by Trace_YRotate folding RStep.
+S->C: the invocations TLC emitted (a seeded sample of the largest size classes) are written as YAML files whose
+secrets are encrypted by the stand-in eyaml under the OLD keys, and the real
+`yamlpath.commands.eyaml_rotate_keys.main()` runs on them in-process with the stand-in on PATH.
+C->S: the same for seeded random invocations (1-3 files reusing anchor names, files without secrets mixed in,
+nesting, flow containers, eleven scalar styles, anchored/aliased secrets and plaintext, duplicate plaintexts,
+plaintexts with leading / trailing / embedded white space, third-party and corrupt tokens).  For every run the
+merged log of the stand-in (Decrypt/Encrypt) and of recording wrappers in the command module's namespace
+(NextFile/Find/Node/Store/Backup/Write/Exit) is validated by Trace_YRotate folding RStep.
 
-Verdict (projection, harness/rotobs.judge): after a successful run every marker-recognised value decrypts under
-the new keys to its old plaintext and not under the old keys; sharing partition unchanged; each shared value
-decrypted and encrypted once; the non-secret frame (keys, values, order, anchors) unchanged on reload; a file
-without ENC[ values is untouched (bytes, mtime, directory listing) and the external command never runs.
+Verdict (projection, harness/rotobs.judge, per file): after a successful run every marker-recognised value
+decrypts - by the stand-in, independently of yamlpath - under the new keys to EXACTLY its old plaintext and not
+under the old keys; sharing partition unchanged; each shared value decrypted and encrypted once; the non-secret
+frame (keys, values, order, anchors) unchanged on reload; a file without ENC[ values is untouched (bytes, mtime,
+no .bak, no stray file) and the external command never runs for it.
 A trace the specification rejects while the projection holds is model drift (reported, no alarm).
 """
 import copy
@@ -32,6 +37,12 @@ LEVEL = "model_checking"
 PLAINTEXTS = ["s3cr3t", "password with spaces", "two\nlines", "p@$$:w0rd#{}[]", "x",
               "a long plaintext that makes the token wrap over several lines of sixty characters each, twice",
               "0", "another secret value 1234567890"]
+# plaintext shapes whose exact preservation is part of the verdict (leading / embedded / trailing white space) ...
+FIDELITY = [" lead space", "\tlead tab", "  two lead", "in  ner   gaps", "emb\nedded line", "emb\tedded tab", "\nlead break",
+            "para\n\n  indented", "trail space ", "trail tab\t", "  both  ", "mixed \t", "a\x0b"]
+# ... and those the statement cannot decide or the tool refuses (counted, not judged): a plaintext ending in a line
+# break (the command protocol appends one itself), white space only / empty (decryption is refused, exit 3)
+FIDELITY_INFO = ["trail break\n", "crlf\r\n", "x \n", " ", "\t", ""]
 PLAIN_VALUES = ["plain", "42", "-7", "1.50", "true", "null", "~", '"quoted"', "'single'", '"ENC"', '"not ENC[really]"',
                 '"e n c["', '""', "2020-01-01", '"x ENC[PKCS7,abc]"', "Enc"]
 BLOCK_ONLY_PLAIN = ["xENC[PKCS7,abc]", "enc[PKCS7,abc]", "ENC PKCS7,abc]"]
@@ -45,13 +56,18 @@ FLOW_FORMS = ["dq", "sq", "spaced", "nl"]
 
 
 # --------------------------------------------------------------------------- documents
-def model_plaintext(pt):
-    return ("secret %02d " % pt) + ("0123456789 abcdefghij " * 3 if pt % 2 else "s")[: 60 if pt % 2 else 1] + "end"
+def model_plaintext(pt, trail):
+    if trail == "empty":
+        return ""
+    if trail == "allws":
+        return " \t " if pt % 2 else " "
+    base = ("secret %02d " % pt) + ("0123456789 abcdefghij " * 3 if pt % 2 else "s")[: 60 if pt % 2 else 1] + "end"
+    return base + ((" ", "\t", "  ", " \t")[pt % 4] if trail == "ws" else "")
 
 
-def case_tree(case):
+def case_tree(doc):
     """A document emitted by MC_YRotate -> tree.  Containers: 1 root hash, 2/3 sequences, 4 nested hash."""
-    slots, objs = case["doc"]["slots"], case["doc"]["objs"]
+    slots, objs = doc["slots"], doc["objs"]
     root = {"t": "map", "flow": False, "items": []}
     conts = {1: root}
     seen = set()
@@ -67,7 +83,7 @@ def case_tree(case):
         elif head.replace("\n", "").replace(" ", "").startswith("ENC["):
             base = "plain" if head.startswith("ENC[") else "spaced" if head.startswith(" ") else "nl"
             form = {"plain": "folded", "spaced": "foldedsp", "nl": "foldednl"}[base] if o["folded"] else base
-            leaf = {"t": "secret", "pt": model_plaintext(o["pt"]), "key": o["key"], "form": form, "anchor": o["anc"]}
+            leaf = {"t": "secret", "pt": model_plaintext(o["pt"], o["trail"]), "key": o["key"], "form": form, "anchor": o["anc"]}
         else:
             leaf = {"t": "plain", "yaml": {"plain": "plain"}.get(head, head + "abc]"), "anchor": o["anc"]}
         seen.add(s["o"])
@@ -78,7 +94,7 @@ def case_tree(case):
     return root
 
 
-def gen_tree(rng, want_secrets=True, odd_keys=False, foreign=True):
+def gen_tree(rng, want_secrets=True, odd_keys=False, foreign=True, fidelity=0.0):
     """Seeded random document: nesting <= 3, block and flow containers, all forms, anchors and aliases."""
     anchors = []          # names defined so far (document order)
     free = list(ANCHORS)
@@ -94,7 +110,10 @@ def gen_tree(rng, want_secrets=True, odd_keys=False, foreign=True):
             key = "old"
             if foreign and rng.random() < 0.04:
                 key = rng.choice(["other", "none"])
-            lf = {"t": "secret", "pt": rng.choice(PLAINTEXTS), "key": key,
+            pool = PLAINTEXTS
+            if rng.random() < fidelity:
+                pool = FIDELITY_INFO if rng.random() < 0.15 else FIDELITY
+            lf = {"t": "secret", "pt": rng.choice(pool), "key": key,
                   "form": rng.choice(FLOW_FORMS if flow else BLOCK_FORMS), "anchor": ""}
             if free and rng.random() < 0.45:
                 lf["anchor"] = free.pop(0)
@@ -143,19 +162,23 @@ def _run_chunk(chunk):
     out = []
     for c in chunk:
         try:
-            obs = ro.run_case(c["text"], c["backup"], _W["dir"], _W["keys"])
+            obs = ro.run_case(c["texts"], c["backup"], _W["dir"], _W["keys"])
         except Exception as ex:        # the generated text must load: anything else is machinery
-            out.append({"id": c["id"], "machinery": "%s: %s" % (type(ex).__name__, str(ex)[:300]), "text": c["text"]})
+            out.append({"id": c["id"], "machinery": "%s: %s" % (type(ex).__name__, str(ex)[:300]), "texts": c["texts"]})
             continue
-        bad = ro.judge(obs, use_executable=c.get("exe", False))
-        info = obs["info"]
-        rec = {"id": c["id"], "text": c["text"], "backup": c["backup"], "src": c["src"], "doc": obs["doc"], "events": obs["events"],
-               "file": obs["file"], "rc": obs["rc"], "crash": obs["crash"], "bad": bad, "rewritten": obs["rewritten"],
-               "bak": obs["bak_ok"], "nsecret": sum(1 for x in info if x["secret"]), "npos": len(info),
-               "all_old": all(x["key"] == "old" for x in info if x["secret"]),
-               "classes": sorted({ro.slot_class(info, i) for i, x in enumerate(info) if x["secret"]}),
-               "after_text": obs["after_text"] if bad else "", "rawlog": obs["rawlog"] if bad else [],
-               "reload_error": obs["reload_error"]}
+        bad, notes = ro.judge(obs, use_executable=c.get("exe", False))
+        fs = obs["files"]
+        secret_slots = [(f["info"], i) for f in fs for i, x in enumerate(f["info"]) if x["secret"]]
+        rec = {"id": c["id"], "texts": c["texts"], "backup": c["backup"], "src": c["src"],
+               "files": [f["doc"] for f in fs], "events": obs["events"], "views": [f["view"] for f in fs],
+               "filecheck": [f["filecheck"] for f in fs], "rc": obs["rc"], "crash": obs["crash"], "bad": bad, "notes": notes,
+               "rewritten": [f["rewritten"] for f in fs], "bak": [f["bak_ok"] for f in fs],
+               "reload_error": [bool(f["reload_error"]) for f in fs],
+               "nsecret": [sum(1 for x in f["info"] if x["secret"]) for f in fs],
+               "all_old": all(info[i]["key"] == "old" for info, i in secret_slots),
+               "trails": sorted({ro.trail_class(info[i]["plain"]) for info, i in secret_slots if info[i]["plain"] is not None}),
+               "classes": sorted({ro.slot_class(info, i) for info, i in secret_slots}),
+               "after_texts": [f["after_text"] for f in fs] if bad else [], "rawlog": obs["rawlog"] if bad else []}
         if "model" in c:
             rec["model"] = c["model"]
         out.append(rec)
@@ -175,7 +198,7 @@ def run_cases(ctx, cases):
             out.extend(part)
     mach = [r for r in out if "machinery" in r]
     if mach:
-        raise core.MachineryError("case could not be prepared: %s\n%s" % (mach[0]["machinery"], mach[0]["text"]))
+        raise core.MachineryError("case could not be prepared: %s\n%s" % (mach[0]["machinery"], "\n".join(mach[0]["texts"])))
     out.sort(key=lambda r: r["id"])
     return out
 
@@ -184,9 +207,8 @@ def run_cases(ctx, cases):
 def validate(ctx, recs, name, cfg="Trace_YRotate.cfg"):
     rin, rout = ctx.path(name + ".records.json"), ctx.path(name + ".verdicts.json")
     with open(rin, "w") as fh:
-        json.dump([{"id": r["id"], "doc": r["doc"], "backup": r["backup"], "events": r["events"], "file": r["file"],
-                    "filecheck": bool(r["rewritten"] and not r["reload_error"])}
-                   for r in recs], fh)
+        json.dump([{"id": r["id"], "files": r["files"], "backup": r["backup"], "events": r["events"], "views": r["views"],
+                    "filecheck": r["filecheck"], "checkinv": "mirrored" not in cfg} for r in recs], fh)
     core.run_tlc(ctx, "Trace_YRotate", cfg, env={"RECORDS_IN": rin, "VERDICTS_OUT": rout}, workers=1, name=name)
     if not os.path.exists(rout):
         raise core.MachineryError("Trace_YRotate wrote no verdicts (%s)" % name)
@@ -238,8 +260,17 @@ def corruptions(rec):
                 return False
             del r["events"][i]
         return go
-    for k in ("Find", "Node", "Decrypt", "Encrypt", "Store", "Write", "Backup"):
+    for k in ("NextFile", "Find", "Node", "Decrypt", "Encrypt", "Store", "Write", "Backup"):
         variant("drop-" + k, drop(k))
+    variant("nextfile-index", mut("NextFile", "fi", lambda i: i + 1))
+
+    def late_second_file(r):      # the second file's NextFile moved behind its first Find
+        idx = [i for i, e in enumerate(r["events"]) if e["e"] == "NextFile"]
+        if len(idx) < 2 or idx[1] + 1 >= len(r["events"]) or r["events"][idx[1] + 1]["e"] != "Find":
+            return False
+        i = idx[1]
+        r["events"][i], r["events"][i + 1] = r["events"][i + 1], r["events"][i]
+    variant("nextfile-late", late_second_file)
 
     def dup(kind):
         def go(r):
@@ -259,11 +290,21 @@ def corruptions(rec):
     variant("write-before-backup", swap_bw)
 
     def file_key(r):
-        if not r["file"] or all(x["key"] != "new" for x in r["file"]):
-            return False
-        i = next(i for i, x in enumerate(r["file"]) if x["key"] == "new")
-        r["file"][i]["key"] = "old"
+        for k, v in enumerate(r["views"]):
+            if r["filecheck"][k] and any(x["key"] == "new" for x in v):
+                next(x for x in v if x["key"] == "new")["key"] = "old"
+                return None
+        return False
     variant("file-key", file_key)
+
+    def file_pt(r):
+        for k, v in enumerate(r["views"]):
+            if r["filecheck"][k] and any(x["key"] == "new" for x in v):
+                x = next(x for x in v if x["key"] == "new")
+                x["pt"] = 0 - x["pt"]
+                return None
+        return False
+    variant("file-plaintext", file_pt)
 
     def flip_backup(r):
         if not any(e["e"] == "Write" for e in ev):
@@ -274,63 +315,101 @@ def corruptions(rec):
 
 
 # --------------------------------------------------------------------------- the check
+PREDICTIONS = {"MC_YRotate_pinned.cfg": "AllNew", "MC_YRotate_pinned_rstrip.cfg": "PlaintextKept",
+               "MC_YRotate_noreset.cfg": "AllNew"}
+# family -> (cfg quick, cfg thorough, replay everything up to this many positions in all files together (quick,
+# thorough), budget for the bigger ones (quick, thorough))
+FAMILIES = {
+    "shape":  ("MC_YRotate_q.cfg", "MC_YRotate_t.cfg", (3, 4), (300, 6000)),
+    "marker": ("MC_YRotate_marker.cfg", "MC_YRotate_marker.cfg", (1, 1), (150, 2500)),
+    "fid":    ("MC_YRotate_fid.cfg", "MC_YRotate_fid3.cfg", (1, 2), (200, 10 ** 9)),
+    "files":  ("MC_YRotate_files.cfg", "MC_YRotate_files3.cfg", (2, 2), (250, 5000)),
+}
+
+
 def build_cases(ctx, rng):
-    """TLC runs + case lists.  Returns (cases, model stats)."""
-    pinned = core.run_tlc(ctx, "MC_YRotate", "MC_YRotate_pinned.cfg", env={"CASES_OUT": ctx.path("pinned.txt")})
-    emitted = []
-    for cfg in (["MC_YRotate_q.cfg", "MC_YRotate_marker.cfg"] if ctx.quick else ["MC_YRotate_t.cfg", "MC_YRotate_marker.cfg"]):
-        f = ctx.path(cfg + ".cases")
-        r = core.run_tlc(ctx, "MC_YRotate", cfg, env={"CASES_OUT": f}, timeout=7200)
-        if r["violated"]:
-            ctx.coverage.setdefault("model_predictions", []).append("%s violated in %s" % (r["violated"], cfg))
-        for c in core.read_csv_json_lines(f):
-            c["cfg"] = cfg
-            emitted.append(c)
-        os.remove(f)
-    if not emitted:
-        raise core.MachineryError("MC_YRotate emitted no cases")
-    # group the backup variants of one document; small documents are all replayed, the biggest size class of a
-    # configuration is sampled in the quick tier (thorough: everything, one backup variant per big document)
-    by_doc = {}
-    for c in emitted:
-        by_doc.setdefault((c["cfg"], json.dumps(c["doc"], sort_keys=True)), []).append(c)
-    groups = [by_doc[k] for k in sorted(by_doc)]
-    small_upto = {"shape": 3, "marker": 1} if ctx.quick else {"shape": 4, "marker": 2}
-    budget = {"shape": 450, "marker": 250} if ctx.quick else {"shape": 10000, "marker": 10 ** 9}
-    chosen, big = [], {"shape": [], "marker": []}
-    for cs in groups:
-        fam = "marker" if "marker" in cs[0]["cfg"] else "shape"
-        n = len(cs[0]["doc"]["slots"])
-        if n > small_upto[fam]:
-            big[fam].append(cs)
-        elif ctx.quick and n > 2:
-            chosen.append(cs[rng.randrange(len(cs))])
-        else:
-            chosen.extend(cs)
-    for fam in ("shape", "marker"):
-        rng.shuffle(big[fam])
-        for cs in big[fam][:budget[fam]]:
-            chosen.append(cs[rng.randrange(len(cs))])
-    exhaustive_upto = dict(small_upto)
+    """TLC runs (in parallel JVMs) + the list of invocations to replay.  Returns (cases, model stats)."""
+    from concurrent.futures import ThreadPoolExecutor
     from harness import rotobs as ro
+    tier = 0 if ctx.quick else 1
+    jobs = [(cfg, None) for cfg in PREDICTIONS] + [(FAMILIES[f][tier], f) for f in FAMILIES]
+    per = max(2, core.NCPU // 4)
+
+    def go(job):
+        cfg, fam = job
+        out = ctx.path(cfg + ".cases")
+        return job, core.run_tlc(ctx, "MC_YRotate", cfg, env={"CASES_OUT": out}, timeout=7200, workers=per), out
+
+    with ThreadPoolExecutor(max_workers=4) as ex:
+        results = list(ex.map(go, jobs))
+    predictions = {}
+    emitted = {}
+    for (cfg, fam), r, out in results:
+        if fam is None:
+            predictions[cfg.replace("MC_YRotate_", "").replace(".cfg", "")] = r["violated"]
+            if r["violated"] != PREDICTIONS[cfg]:
+                raise core.MachineryError("%s: TLC was expected to violate %s, got %s" % (cfg, PREDICTIONS[cfg], r["violated"]))
+        else:
+            if r["violated"]:
+                raise core.MachineryError("%s: the property's design violates %s (log %s)" % (cfg, r["violated"], r["log"]))
+            emitted[fam] = core.read_csv_json_lines(out)
+            if not emitted[fam]:
+                raise core.MachineryError("%s emitted no cases" % cfg)
+        if os.path.exists(out):
+            os.remove(out)
+    chosen = []
+    ndocs = {}
+    for fam in sorted(emitted):
+        small, budget = FAMILIES[fam][2][tier], FAMILIES[fam][3][tier]
+        by_doc = {}
+        for c in emitted[fam]:
+            c["fam"] = fam
+            by_doc.setdefault(json.dumps(c["files"], sort_keys=True), []).append(c)      # the --backup variants
+        ndocs[fam] = len(by_doc)
+        big = []
+        for k in sorted(by_doc):
+            cs = by_doc[k]
+            n = sum(len(d["slots"]) for d in cs[0]["files"])
+            if n > small:
+                big.append(cs)
+            elif ctx.quick and n > 2:
+                chosen.append(cs[rng.randrange(len(cs))])
+            else:
+                chosen.extend(cs)
+        rng.shuffle(big)
+        for cs in big[:budget]:
+            chosen.append(cs[rng.randrange(len(cs))])
     cases = []
     for c in chosen:
-        text = ro.to_yaml(case_tree(c))
-        cases.append({"id": len(cases), "text": text, "backup": bool(c["backup"]), "src": "model:" + c["cfg"],
-                      "model": {"status": c["status"], "final": c["final"], "written": c["written"], "backed": c["backed"]}})
-    stats = {"emitted": len(emitted), "emitted_docs": len(groups), "replayed_model_cases": len(cases),
-             "exhaustive_upto_positions": exhaustive_upto, "pinned_model_predicts": pinned["violated"]}
+        texts = [ro.to_yaml(case_tree(d)) for d in c["files"]]
+        cases.append({"id": len(cases), "texts": texts, "backup": bool(c["backup"]), "src": "model:" + c["fam"],
+                      "exe": c["fam"] == "fid",
+                      "model": {"status": c["status"], "finals": c["finals"], "written": c["written"], "backed": c["backed"]}})
+    stats = {"emitted": {f: len(v) for f, v in emitted.items()}, "emitted_invocations": ndocs,
+             "replayed_model_cases": len(cases),
+             "exhaustive_upto_positions": {f: FAMILIES[f][2][tier] for f in FAMILIES},
+             "deviating_designs_refuted_by_tlc": predictions}
     return cases, stats
 
 
 def random_cases(ctx, rng, start):
-    n = 500 if ctx.quick else 6000
+    n = 450 if ctx.quick else 5000
     from harness import rotobs as ro
     cases = []
     for i in range(n):
-        tree, odd = gen_tree(rng, want_secrets=(i % 10 != 0), odd_keys=(i % 25 == 7), foreign=(i % 3 == 0))
-        cases.append({"id": start + i, "text": ro.to_yaml(tree), "backup": rng.random() < 0.5,
-                      "src": "random-oddkeys" if odd else "random", "exe": i % 10 == 1})
+        nfiles = (1, 1, 2, 1, 3, 2)[i % 6]
+        trees, odd = [], False
+        for k in range(nfiles):
+            # every file draws its anchors from the same pool, so files of one invocation reuse anchor names;
+            # in a multi-file invocation some files hold no secret at all
+            want = (i % 10 != 0) if nfiles == 1 else rng.random() < 0.7
+            tree, o = gen_tree(rng, want_secrets=want, odd_keys=(i % 25 == 7), foreign=(i % 4 == 0),
+                               fidelity=(0.5 if i % 3 == 1 else 0.0))
+            trees.append(tree)
+            odd = odd or o
+        texts = [ro.to_yaml(t) for t in trees]
+        cases.append({"id": start + i, "texts": texts, "backup": rng.random() < 0.5,
+                      "src": "random-oddkeys" if odd else "random", "exe": i % 3 == 1 or i % 10 == 2})
     return cases
 
 
@@ -343,12 +422,12 @@ def run(ctx):
 
     # ---- verdicts from the projection
     odd = [r for r in recs if r["src"] == "random-oddkeys"]     # informational only (see KEYS_ODD)
-    odd_dev = [{"text": r["text"], "rc": r["rc"], "crash": r["crash"], "bad": r["bad"]} for r in odd if r["bad"] or r["rc"] != 0]
+    odd_dev = [{"texts": r["texts"], "rc": r["rc"], "crash": r["crash"], "bad": r["bad"]} for r in odd if r["bad"] or r["rc"] != 0]
     recs = [r for r in recs if r["src"] != "random-oddkeys"]
     for r in recs:
         for sig, desc in r["bad"]:
-            ctx.violation(sig, desc, {"kind": "doc", "text": r["text"], "backup": r["backup"], "src": r["src"],
-                                      "after_text": r["after_text"], "log": r["rawlog"]})
+            ctx.violation(sig, desc, {"kind": "invocation", "texts": r["texts"], "backup": r["backup"], "src": r["src"],
+                                      "after_texts": r["after_texts"], "log": r["rawlog"]})
     # ---- C->S: every run must be a behaviour of YRotate
     verdicts = {}
     crashed = [r for r in recs if r["crash"]]       # an uncaught exception is not a behaviour the machine models
@@ -362,80 +441,95 @@ def run(ctx):
         v = verdicts[r["id"]]
         pinned_ok = mirrored[r["id"]]["ok"]
         follows_pinned += bool(pinned_ok)
-        if not r["bad"] and not pinned_ok:      # rejected, projection fine, and not explained by the pinned Store either
+        if not r["bad"] and not pinned_ok:      # rejected, projection fine, and not explained by a named deviation either
             drift += 1
             if len(drift_samples) < 5:
-                drift_samples.append({"text": r["text"], "why": v["why"], "at": v["at"], "rc": r["rc"], "crash": r["crash"],
-                                      "expected": v["expect"], "got": r["events"][v["at"] - 1] if v["at"] else None,
-                                      "accepted_by_pinned_store": pinned_ok})
-    # ---- S->C: the model's predicted outcome for its own documents
+                drift_samples.append({"texts": r["texts"], "why": v["why"], "at": v["at"], "rc": r["rc"],
+                                      "expected": v["expect"], "got": r["events"][v["at"] - 1] if v["at"] else None})
+    # ---- S->C: the model's predicted outcome for its own invocations (projection: status, which files were
+    # rewritten / backed up, key and sharing per position of every rewritten file)
     s2c_mismatch = 0
     for r in recs:
         m = r.get("model")
-        if not m:
+        if not m or r["bad"] or (verdicts.get(r["id"]) and not verdicts[r["id"]]["ok"] and mirrored[r["id"]]["ok"]):
             continue
-        agree = r["rc"] == m["status"] and r["rewritten"] == m["written"] and (r["bak"] is not None) == m["backed"] \
-            and (not m["written"] or r["reload_error"] or [(x["o"], x["key"]) for x in r["file"]] == [(x["o"], x["key"]) for x in m["final"]])
-        if not agree and not r["bad"]:
+        agree = r["rc"] == m["status"] and r["rewritten"] == m["written"] and [b is not None for b in r["bak"]] == m["backed"]
+        for k, fin in enumerate(m["finals"]):
+            if agree and m["written"][k] and not r["reload_error"][k]:
+                agree = [(x["o"], x["key"]) for x in r["views"][k]] == [(x["o"], x["key"]) for x in fin]
+        if not agree:
             s2c_mismatch += 1
             if len(drift_samples) < 8:
-                drift_samples.append({"text": r["text"], "why": "model outcome", "model": m, "rc": r["rc"], "file": r["file"]})
+                drift_samples.append({"texts": r["texts"], "why": "model outcome", "model": m, "rc": r["rc"], "views": r["views"]})
     # ---- binding self-test: corrupt one field of accepted traces; all must be rejected
-    good = [r for r in traced if verdicts[r["id"]]["ok"] and r["nsecret"] >= 1 and r["rc"] == 0]
-    pick = ([r for r in good if r["backup"] and any(c.startswith("alias") for c in r["classes"])][:6]
-            + [r for r in good if not r["backup"]][:6] + [r for r in good if r["src"] == "random"][:6])
+    good = [r for r in traced if verdicts[r["id"]]["ok"] and sum(r["nsecret"]) >= 1 and r["rc"] == 0]
+    multi = [r for r in good if len(r["files"]) > 1 and sum(1 for n in r["nsecret"] if n) > 1]
+    pick = ([r for r in good if r["backup"] and any(c.startswith("alias") for c in r["classes"])][:5]
+            + [r for r in good if not r["backup"]][:5] + [r for r in good if r["src"] == "random"][:5] + multi[:6])
     corr = [c for r in pick for c in corruptions(r)]
-    if not corr:
-        raise core.MachineryError("binding self-test: no accepted trace to corrupt")
+    if not corr or not multi:
+        raise core.MachineryError("binding self-test: no accepted (multi-file) trace to corrupt")
     cver = validate(ctx, corr, "selftest")
     accepted = [c["id"] for c in corr if cver[c["id"]]["ok"]]
     if accepted:
         raise core.MachineryError("binding self-test: corrupted traces were accepted: %s" % accepted[:5])
 
     failed_runs = [r for r in recs if r["rc"] != 0]
-    ctx.informational += len(failed_runs) + len(odd)
-    nontrivial = {r["text"] for r in recs if r["nsecret"] >= 1 and r["rc"] == 0}
-    classes = {}
+    notes = [n for r in recs for n in r["notes"]]
+    ctx.informational += len(failed_runs) + len(odd) + len(notes)
+    nontrivial = {"\n".join(r["texts"]) for r in recs if sum(r["nsecret"]) >= 1 and r["rc"] == 0}
+    classes, trails = {}, {}
     for r in recs:
         for c in r["classes"]:
             classes[c] = classes.get(c, 0) + 1
-    sample = next((r for r in recs if r["src"] == "random" and r["nsecret"] >= 2 and r["rc"] == 0), recs[0])
+        for c in r["trails"]:
+            trails[c or "non-blank"] = trails.get(c or "non-blank", 0) + 1
+    multi_all = [r for r in recs if len(r["files"]) > 1]
+    sample = next((r for r in recs if r["src"] == "random" and len(r["files"]) > 1 and min(r["nsecret"]) >= 1 and r["rc"] == 0), recs[0])
     ctx.coverage.update(stats)
     ctx.coverage.update({
         "evaluations": len(recs),
         "distinct_nontrivial": len(nontrivial),
-        "rule": "distinct YAML files holding at least one ENC[ value on which the real main() exited 0",
+        "rule": "distinct invocations (file texts) holding at least one ENC[ value on which the real main() exited 0",
         "traces_validated_against_impl": len(traced),
         "traces_rejected": len(rejected),
-        "rejected_but_accepted_by_pinned_store_model": follows_pinned,
+        "rejected_but_explained_by_named_deviation(rstrip)": follows_pinned,
         "model_drift": drift,
         "model_outcome_mismatches_without_violation": s2c_mismatch,
         "drift_samples": drift_samples,
         "binding_selftest": {"corrupted_traces": len(corr), "rejected": len(corr) - len(accepted)},
+        "multi_file_invocations": len(multi_all),
+        "multi_file_invocations_with_secrets_in_several_files": sum(1 for r in multi_all if sum(1 for n in r["nsecret"] if n) > 1),
+        "multi_file_invocations_mixing_files_without_secrets": sum(1 for r in multi_all if 0 in r["nsecret"] and any(r["nsecret"])),
+        "files_without_secrets": sum(1 for r in recs for n in r["nsecret"] if n == 0),
+        "plaintext_endings": trails,
+        "plaintexts_ending_in_line_break_not_judged": len(notes),
+        "failed_runs_informational": len(failed_runs),
+        "failed_runs_although_every_secret_was_under_the_old_keys": sum(
+            1 for r in failed_runs if r["all_old"] and not r["crash"] and not ({"allws", "empty"} & set(r["trails"]))),
         "odd_key_documents_informational": len(odd),
         "odd_key_documents_failed_or_deviating": len(odd_dev),
         "odd_key_samples": odd_dev[:2],
-        "files_without_secrets": sum(1 for r in recs if r["nsecret"] == 0),
-        "failed_runs_informational": len(failed_runs),
-        "failed_runs_although_every_secret_was_under_the_old_keys": sum(1 for r in failed_runs if r["all_old"] and not r["crash"]),
         "crashes_informational": len(crashed),
         "crash_kinds": sorted({r["crash"].split(":")[0] for r in crashed}),
         "secret_position_classes": classes,
         "protocol_decrypt_via_executable": sum(1 for c in cases if c.get("exe")),
         "exhaustive": True,
-        "samples": [{"text": sample["text"], "backup": sample["backup"], "rc": sample["rc"],
+        "samples": [{"texts": sample["texts"], "backup": sample["backup"], "rc": sample["rc"],
                      "events": [e["e"] for e in sample["events"]]}],
         "trusted_base": ["TLC 1.8", "harness/fake_eyaml/eyaml (keyed reversible cipher; wrong key => exit 1)",
                          "ruamel.yaml loader used to reload the rewritten file", "harness/rotobs.py position walk"],
     })
     ctx.assumptions += [
-        "plaintexts are non-empty ASCII without leading/trailing whitespace and do not themselves begin with ENC[ "
-        "(the command protocol strips trailing whitespace; eyamlprocessor encodes as ASCII)",
+        "plaintexts are ASCII (eyamlprocessor encodes as ASCII) and do not themselves begin with ENC[; every white space "
+        "shape is judged exactly except a plaintext ENDING in a line break (the command protocol appends a line break of its "
+        "own - the real eyaml prints with `puts` - so it cannot be told apart) and white-space-only / empty plaintexts (the "
+        "tool refuses the decryption and exits 3: not a successful run)",
         "containers are not aliased (a secret inside an aliased hash is reachable by two paths and makes the tool fail: "
         "not a successful run, outside the statement)",
-        "one YAML_FILE per invocation; whitespace inside values is spaces and line breaks (what the marker rule names)",
-        "runs that exit non-zero (third-party / corrupt tokens, keys the path builder cannot address) are counted as "
-        "informational: the statement speaks about successful runs; only the no-secret clause is checked for them"]
+        "white space inside encrypted values is spaces and line breaks (what the marker rule names)",
+        "runs that exit non-zero (third-party / corrupt tokens, refused plaintexts) are counted as informational: the "
+        "statement speaks about successful runs; only the no-secret clause is checked for them"]
 
 
 def replay(path):
@@ -444,15 +538,18 @@ def replay(path):
         rp = json.load(fh)["replay"]
     work = os.path.join(core.VERIF, "out", "C19-replay")
     keys = ro.make_keys(os.path.join(work, "keys"))
-    obs = ro.run_case(rp["text"], rp["backup"], os.path.join(work, "w"), keys)
-    bad = ro.judge(obs, use_executable=True)
-    print(rp["text"])
-    print("exit status %s%s; rewritten=%s" % (obs["rc"], (" crash " + obs["crash"]) if obs["crash"] else "", obs["rewritten"]))
-    print(obs["after_text"])
+    texts = rp["texts"] if "texts" in rp else [rp["text"]]
+    obs = ro.run_case(texts, rp["backup"], os.path.join(work, "w"), keys)
+    bad, notes = ro.judge(obs, use_executable=True)
+    print("exit status %s%s" % (obs["rc"], (" crash " + obs["crash"]) if obs["crash"] else ""))
+    for k, f in enumerate(obs["files"], 1):
+        print("--- file %d before\n%s--- file %d after (rewritten=%s)\n%s" % (k, f["text"], k, f["rewritten"], f["after_text"]))
     for e in obs["events"]:
         print("  ", {k: v for k, v in e.items() if k != "after"})
     for sig, desc in bad:
         print("  %s :: %s" % (sig, desc))
+    for n in notes:
+        print("  note: " + n)
     shutil.rmtree(work, ignore_errors=True)
     print("VIOLATION property=C19 replay=%s" % path if bad else "no violation")
     return 1 if bad else 0
